@@ -66,19 +66,29 @@ Insts == {1, 2}
 Names == {"a", "b"}
 Vals  == {"v1", "v2"}          \* abstract values; the Go side draws a (kind, concrete value) for each
 
-VARIABLES store, h
-vars == <<store, h>>
+\* How the two instances come into being (the store must be per instance in every case):
+\*   "separate" : two NewProcess calls, each with its own options
+\*   "shared"   : ONE option list -- WithVariables(a = v1) among them -- reused for both calls
+\* and how a value is handed to the store:
+\*   "raw"  : SetVariable(name, Go value)       "item" : SetVariable(name, schema.NewValue(Go value))
+Modes == {"separate", "shared"}
+Vias  == {"raw", "item"}
+VARIABLES store, h, mode
+vars == <<store, h, mode>>
 Absent == "-"
-Init == store = [i \in Insts |-> [n \in Names |-> Absent]] /\ h = <<>>
+Init == /\ mode \in Modes
+        /\ store = [i \in Insts |-> [n \in Names |-> IF mode = "shared" /\ n = "a" THEN "v1" ELSE Absent]]
+        /\ h = <<>>
 
-SetOp(i, n, v) ==
+SetOp(i, n, v, via) ==
   /\ store' = [store EXCEPT ![i][n] = v]
-  /\ h' = Append(h, [op |-> "set", inst |-> i, name |-> n, val |-> v, expect |-> store'])
+  /\ h' = Append(h, [op |-> "set", via |-> via, inst |-> i, name |-> n, val |-> v, expect |-> store'])
+  /\ UNCHANGED mode
 GetOp(i, n) ==
-  /\ UNCHANGED store
-  /\ h' = Append(h, [op |-> "get", inst |-> i, name |-> n, val |-> store[i][n], expect |-> store])
+  /\ UNCHANGED <<store, mode>>
+  /\ h' = Append(h, [op |-> "get", via |-> "", inst |-> i, name |-> n, val |-> store[i][n], expect |-> store])
 Next == /\ Len(h) < MaxOps
-        /\ \/ \E i \in Insts, n \in Names, v \in Vals : SetOp(i, n, v)
+        /\ \/ \E i \in Insts, n \in Names, v \in Vals, via \in Vias : SetOp(i, n, v, via)
            \/ \E i \in Insts, n \in Names : GetOp(i, n)
 Spec == Init /\ [][Next]_vars
 
@@ -86,7 +96,7 @@ Spec == Init /\ [][Next]_vars
 Isolation == [][\A i \in Insts : (h' # h /\ h'[Len(h')].inst # i) => store'[i] = store[i]]_vars
 
 ASSUME TLCSet(1, <<>>)
-Record == (Len(h) = MaxOps) => TLCSet(1, Append(TLCGet(1), [steps |-> h]))
+Record == (Len(h) = MaxOps) => TLCSet(1, Append(TLCGet(1), [steps |-> h, mode |-> mode]))
 Dump == /\ ndJsonSerialize(OutBehaviours, TLCGet(1))
         /\ ndJsonSerialize(OutTable, SetToSeq(Table))
 =============================================================================
